@@ -1,4 +1,5 @@
 import Tickit.Proof.Sgr
+import Tickit.Proof.SgrFrame
 /-
   C10 — Terminal rendering attributes always equal the logical pen after setpen/chpen.
 
@@ -22,6 +23,10 @@ import Tickit.Proof.Sgr
   `sgr_inv_full`, refuted by kernel-checked witnesses, and excluded from `sgr_inv` by `PenOk`:
     * an underline style ≥ 3 (curly) on a terminal without `:` sub-parameters has no encoding and is drawn single (`PenOk.under`);
     * `TICKIT_PEN_SIZEPOS_SMALL` has no encoding (`PenOk.sizepos`).
+  What remains true when such values ARE requested is stated without `PenOk` (section "without PenOk" below): every other
+  rendering attribute still equals the logical pen after every history (`sgr_inv_unrestricted`), an unencodable request
+  disturbs nothing else (`chpen_frame`, `unencodable_change_is_silent`), and the size/position is right again as soon as the
+  logical pen asks for a value that has a parameter.
 -/
 namespace Tickit.Props.C10
 open Tickit Tickit.TermPen Tickit.Sgr Tickit.Proof.Sgr
@@ -241,6 +246,115 @@ theorem ovAttrs_absent (caps : Caps) (q : Pen) (a : Attrs) :
 
 example : ∃ st', step cfgEx { cache := { bold := some true }, vt := { attrs := { bold := true } } } (.ch { italic := some true }) = some st' ∧
     st'.vt.attrs = { bold := true, italic := true } := ⟨_, rfl, by decide +kernel⟩
+
+/-! ### without PenOk: every history, every value in range -/
+
+/-- Underline style and size/position not negative (part of "values in range"; implied by `PenInRange`). -/
+abbrev PenNonneg := Tickit.Proof.Sgr.PenNonneg
+
+theorem penNonneg_of_inRange (p : Pen) (h : PenInRange p) : PenNonneg p :=
+  ⟨fun v hv => (h.2.1 v hv).1, fun v hv => (h.2.2.2 v hv).1⟩
+
+/-- **sgr_inv_unrestricted.** After ANY history of set-pen and change-pen requests — including requests for a curly underline
+    on a terminal without `:` sub-parameters and for `TICKIT_PEN_SIZEPOS_SMALL`, which `sgr_inv` excludes —: the terminal is
+    between control sequences, the cached pen is the palette-converted logical pen, and every rendering attribute other than
+    underline and size/position is exactly what the logical pen asks for (nothing faint, nothing not understood); the
+    underline style is the logical one as far as the terminal can be told (`encUnder`: above double without `:` ⇒ single);
+    the size/position is the logical one whenever that has an SGR parameter (normal, superscript, subscript).  So the two
+    unencodable values are the ONLY way in which the terminal can differ from the logical pen, and only in their own attribute. -/
+theorem sgr_inv_unrestricted (cfg : Cfg) (ops : List Op) (st : TState) (h8 : 8 ≤ cfg.colors)
+    (hok : ∀ op ∈ ops, PenNonneg op.pen) (h : runOps cfg ops {} = some st) :
+    st.vt.st = .ground ∧ st.cache = convPen cfg.colors (logical ops) ∧
+    st.vt.attrs.fg = (expected cfg (logical ops)).fg ∧ st.vt.attrs.bg = (expected cfg (logical ops)).bg ∧
+    st.vt.attrs.bold = (expected cfg (logical ops)).bold ∧ st.vt.attrs.faint = false ∧
+    st.vt.attrs.italic = (expected cfg (logical ops)).italic ∧ st.vt.attrs.blink = (expected cfg (logical ops)).blink ∧
+    st.vt.attrs.reverse = (expected cfg (logical ops)).reverse ∧ st.vt.attrs.strike = (expected cfg (logical ops)).strike ∧
+    st.vt.attrs.font = (expected cfg (logical ops)).font ∧ st.vt.attrs.junk = 0 ∧
+    st.vt.attrs.under = encUnder cfg.caps.colon (getInt (logical ops).under) ∧
+    (sizeEnc (getInt (logical ops).sizepos) → st.vt.attrs.sizepos = (expected cfg (logical ops)).sizepos) := by
+  have hinv := runOps_rinv cfg ops {} st hok (rinv_init cfg.caps) h
+  have hc := runOps_cache cfg h8 ops {} st {} rfl h
+  have hc' : st.cache = convPen cfg.colors (logical ops) := hc
+  obtain ⟨f, g, b, t, i, k, r, s, n, j⟩ := mask_eq_fields hinv.others
+  have hu := hinv.under
+  have hs := hinv.sizepos
+  rw [hc'] at f g b t i k r s n j hu hs
+  exact ⟨hinv.ground, hc', f, g, b, t, i, k, r, s, n, j, hu, hs⟩
+
+/-- … and the underline style is exact whenever it can be said: with `:` sub-parameters, or up to double. -/
+theorem under_exact (colon : Bool) (v : Int) (h0 : 0 ≤ v) (h : colon = true ∨ v ≤ 2) : encUnder colon v = v.toNat :=
+  encUnder_ok colon v h0 h
+
+/-- the history of the demonstration: bold and a colour, then italic, then only size/position = small -/
+def opsSmall : List Op :=
+  [.set { bold := some true, fg := some ⟨2, none⟩ }, .ch { italic := some true }, .ch { sizepos := some Tickit.Gen.Sgr.sizeposSmall }]
+
+/-- non-vacuity, and the concrete case: after `setpen bold,fg=2; chpen italic; chpen sizepos=small` the terminal still has
+    bold, italic and colour 2 (only the size/position is not what the logical pen says), and the last request sent nothing. -/
+example : ∃ st, runOps cfgEx opsSmall {} = some st ∧ (∀ op ∈ opsSmall, PenNonneg op.pen) ∧
+    st.vt.attrs = { bold := true, italic := true, fg := .idx 2 } ∧ (logical opsSmall).sizepos = some 1 ∧
+    ¬ sizeEnc (getInt (logical opsSmall).sizepos) := by
+  refine ⟨_, rfl, ?_, by decide +kernel, by decide +kernel, by decide +kernel⟩
+  intro op hop
+  simp only [opsSmall, List.mem_cons, List.not_mem_nil, or_false] at hop
+  rcases hop with h | h | h <;> subst h <;> constructor <;> intro v hv <;> cases hv <;> decide
+
+/-- **chpen_frame.** "change-pen overlays ONLY the attributes present in its argument", for every history and every request
+    with values in range — no `PenOk`: the bytes of `chpen p` leave every rendering attribute whose pen attribute is absent
+    from `p` exactly as it was on the terminal (also the ones the terminal could not be told about earlier), never switch
+    `faint` on and contain nothing the reference interpreter does not understand. -/
+theorem chpen_frame (cfg : Cfg) (ops : List Op) (p : Pen) (st st' : TState)
+    (hok : ∀ op ∈ ops, PenNonneg op.pen) (hp : PenNonneg p)
+    (h : runOps cfg ops {} = some st) (h' : step cfg st (.ch p) = some st') :
+    (p.fg = none → st'.vt.attrs.fg = st.vt.attrs.fg) ∧ (p.bg = none → st'.vt.attrs.bg = st.vt.attrs.bg) ∧
+    (p.bold = none → st'.vt.attrs.bold = st.vt.attrs.bold) ∧ (p.under = none → st'.vt.attrs.under = st.vt.attrs.under) ∧
+    (p.italic = none → st'.vt.attrs.italic = st.vt.attrs.italic) ∧
+    (p.reverse = none → st'.vt.attrs.reverse = st.vt.attrs.reverse) ∧
+    (p.strike = none → st'.vt.attrs.strike = st.vt.attrs.strike) ∧ (p.altfont = none → st'.vt.attrs.font = st.vt.attrs.font) ∧
+    (p.blink = none → st'.vt.attrs.blink = st.vt.attrs.blink) ∧
+    (p.sizepos = none → st'.vt.attrs.sizepos = st.vt.attrs.sizepos) ∧
+    st'.vt.attrs.faint = st.vt.attrs.faint ∧ st'.vt.attrs.junk = st.vt.attrs.junk :=
+  step_frame cfg st st' p hp (runOps_rinv cfg ops {} st hok (rinv_init cfg.caps) h) h'
+
+example : ∃ st st', runOps cfgEx (opsSmall.take 2) {} = some st ∧ step cfgEx st (.ch { sizepos := some 1 }) = some st' ∧
+    st'.vt.attrs = st.vt.attrs ∧ st.vt.attrs.bold = true :=
+  ⟨_, _, rfl, rfl, by decide +kernel, by decide +kernel⟩
+
+/-- **unencodable_change_is_silent.** A request whose delta produces no SGR parameter — after any history with values in range
+    that is: nothing changes, or only the size/position changes, to a value without a parameter (`SMALL`) — emits no byte at
+    all; in particular not the empty SGR, which would reset every other attribute. -/
+theorem unencodable_change_is_silent (cfg : Cfg) (cache : Pen) (op : Op)
+    (h : comps cfg.caps (termDelta op.isSet cfg.colors cache op.pen) = []) : emit cfg cache op = .bytes [] := by
+  unfold emit xtermChpen
+  simp [h, flatten]
+
+/-- the delta of `chpen sizepos=small` on a terminal with other attributes in force has exactly this shape -/
+example : comps cfgEx.caps (termDelta false 256 (total { bold := some true }) { sizepos := some 1 }) = [] ∧
+    termDelta false 256 (total { bold := some true }) { sizepos := some 1 } ≠ {} := by decide +kernel
+
+/-- **setpen_total_unrestricted.** The same for set-pen: after `setpen p`, whatever came before and whatever `p` asks for in range,
+    every rendering attribute other than underline and size/position is what `p` says, everything `p` does not mention
+    default. -/
+theorem setpen_total_unrestricted (cfg : Cfg) (ops : List Op) (p : Pen) (st st' : TState) (h8 : 8 ≤ cfg.colors)
+    (hok : ∀ op ∈ ops, PenNonneg op.pen) (hp : PenNonneg p)
+    (h : runOps cfg ops {} = some st) (h' : step cfg st (.set p) = some st') :
+    st'.cache = convPen cfg.colors (total p) ∧
+    st'.vt.attrs.fg = (expected cfg (total p)).fg ∧ st'.vt.attrs.bg = (expected cfg (total p)).bg ∧
+    st'.vt.attrs.bold = getBool p.bold ∧ st'.vt.attrs.faint = false ∧ st'.vt.attrs.italic = getBool p.italic ∧
+    st'.vt.attrs.blink = getBool p.blink ∧ st'.vt.attrs.reverse = getBool p.reverse ∧
+    st'.vt.attrs.strike = getBool p.strike ∧ st'.vt.attrs.font = expectFont (getInt p.altfont) ∧ st'.vt.attrs.junk = 0 ∧
+    st'.vt.attrs.under = encUnder cfg.caps.colon (getInt p.under) ∧
+    (sizeEnc (getInt p.sizepos) → st'.vt.attrs.sizepos = expectSizepos (getInt p.sizepos)) := by
+  have hrun : runOps cfg (ops ++ [.set p]) {} = some st' := by
+    rw [runOps_append, h]
+    simp [runOps, h']
+  have := sgr_inv_unrestricted cfg (ops ++ [.set p]) st' h8 (by
+    intro op hop
+    rcases List.mem_append.1 hop with hop | hop
+    · exact hok op hop
+    · simp at hop; subst hop; exact hp) hrun
+  rw [logical_snoc] at this
+  simpa [logicalStep, total, expected, expectAttrs, convPen, getBool, getInt] using this.2
 
 /-! ### no-op -/
 
